@@ -31,6 +31,11 @@ Term.__abs__ = lambda self: self._un(OPS["abs"])
 Term.__invert__ = lambda self: self._un(OPS["invert"])
 
 
+# terms are Sized with a length that DISAGREES with their truth value: Python's truth test uses __bool__ first,
+# so nothing may look at len() to decide an activation flag
+Term.__len__ = lambda self: 0 if bool(self) else 3
+
+
 def _truth_of(v):
     return bool(v)
 
